@@ -134,11 +134,12 @@ class Lab:
     def __init__(self, ctx, cfg):
         self.ctx, self.cfg = ctx, cfg
 
-    def ask(self, payload, transport, v6=None):
+    def ask(self, payload, transport, v6=None, sp=None, dp=None):
         rng = self.ctx.rng
         v6 = rng.random() < 0.5 if v6 is None else v6
         e = gen.endp(rng, self.cfg, v6)
-        sp, dp = gen.rnd_port(rng), gen.rnd_port(rng)
+        sp = gen.rnd_port(rng) if sp is None else sp
+        dp = gen.rnd_port(rng) if dp is None else dp
         if transport == "udp":
             return app_payload(self.ctx.send(e.udp(sp, dp, payload)))
         f = Flow(self.ctx, e, sp, dp)
@@ -374,9 +375,27 @@ def shard(ctx, budget_s, learn):
                                   len(pre), sigref.NAMES[pid], cuts, rep[:16].hex()), observed=rep.hex()[:200], expected="bare ACKs only",
                               extra={"stream": stream.hex()[:600], "cuts": cuts})
                 break
+    # ---- the decision does not depend on ports or addresses: corner port pairs x both IP versions, every protocol and transport ----
+    real = sigref.RealMatcher(ctx)
+    for pid in (HTTP, SSH, GHOST, STUN, RPC_TCP, RPC_UDP, SMB1, SMB2):
+        fs = forms(pid, rng)
+        rng.shuffle(fs)
+        for tr in transports(pid):
+            wit = next((full for full, _free in fs if sigref.identify(full, tr == "udp") == pid and real.identify(full, tr == "udp") == pid), None)
+            if wit is None:
+                continue
+            x = rng.randrange(1024, 65535)
+            for sp, dp in ((0, x), (x, 0), (0, 0), (65535, 65535), (1, 1), (x, x), (x, 65535), (65535, x)):
+                for v6 in (False, True):
+                    rep = lab.ask(wit, tr, v6=v6, sp=sp, dp=dp)
+                    ctx.stats["endpoint_witnesses"] += 1
+                    ctx.nontrivial("endpoint", pid, tr, sp == 0, dp == 0, sp == dp, v6)
+                    if not is_response_of(pid, rep):
+                        ctx.violation("witness_not_answered:%s:%s:ports" % (sigref.NAMES[pid], tr),
+                                      "complete valid %s request is not answered by its responder over %s/IPv%d from port %d to port %d (got %s)" % (
+                                          sigref.NAMES[pid], tr, 6 if v6 else 4, sp, dp, "nothing" if not rep else rep[:16].hex()), observed=wit.hex(), expected=sigref.NAMES[pid])
     # ---- segmentation / address independence of the decision ----------------------------------------------------------------
     deadline = time.time() + budget_s
-    real = sigref.RealMatcher(ctx)
     def more_witnesses():
         out = []
         for pid in (HTTP, SSH, GHOST, STUN, RPC_TCP, SMB1, SMB2):
